@@ -3,21 +3,9 @@
 mod verif_kani {
     use super::*;
 
-    /// K-mrs (bounded stand-in for the assumed contract O-mrs-layout of MultiRecord::serialize):
-    /// <= 2 payloads of <= 1 byte, symbolic first position: output == (pos+i (le64) | len (le32) | bytes)*
-    #[kani::proof]
-    #[kani::unwind(5)]
-    fn k_mrs() {
-        let n: usize = kani::any();
-        kani::assume(n <= 2);
-        let data: [[u8; 2]; 3] = kani::any();
-        let lens: [usize; 3] = kani::any();
-        kani::assume(lens[0] <= 1 && lens[1] <= 1 && lens[2] <= 1);
-        let pos: u64 = kani::any();
-        kani::assume(pos < u64::MAX - 3);
-        let payloads: [&[u8]; 3] = [&data[0][..lens[0]], &data[1][..lens[1]], &data[2][..lens[2]]];
-        let mut out = Vec::with_capacity(64);
-        MultiRecord::serialize(payloads[..n].iter().copied(), pos, &mut out);
+    /// K-mrs-* (bounded stand-in for the assumed contract O-mrs-layout of MultiRecord::serialize):
+    /// n payloads (n fixed per harness) of <= 2 bytes, symbolic first position: output == (pos+i (le64) | len (le32) | bytes)*
+    fn check(out: &[u8], n: usize, pos: u64, data: &[[u8; 2]; 2], lens: &[usize; 2]) {
         let mut off = 0usize;
         let mut i = 0;
         while i < n {
@@ -30,5 +18,42 @@ mod verif_kani {
             i += 1;
         }
         assert_eq!(out.len(), off);
+    }
+
+    #[kani::proof]
+    #[kani::unwind(4)]
+    fn k_mrs_0() {
+        let pos: u64 = kani::any();
+        let mut out = Vec::with_capacity(64);
+        out.push(7u8); // serialize must clear the buffer
+        let empty: [&[u8]; 0] = [];
+        MultiRecord::serialize(empty.iter().copied(), pos, &mut out);
+        assert_eq!(out.len(), 0);
+    }
+
+    #[kani::proof]
+    #[kani::unwind(4)]
+    fn k_mrs_1() {
+        let data: [[u8; 2]; 2] = kani::any();
+        let lens: [usize; 2] = kani::any();
+        kani::assume(lens[0] <= 2);
+        let pos: u64 = kani::any();
+        kani::assume(pos < u64::MAX - 3);
+        let mut out = Vec::with_capacity(64);
+        MultiRecord::serialize([&data[0][..lens[0]]].iter().copied(), pos, &mut out);
+        check(&out, 1, pos, &data, &lens);
+    }
+
+    #[kani::proof]
+    #[kani::unwind(4)]
+    fn k_mrs_2() {
+        let data: [[u8; 2]; 2] = kani::any();
+        let lens: [usize; 2] = kani::any();
+        kani::assume(lens[0] <= 1 && lens[1] <= 1);
+        let pos: u64 = kani::any();
+        kani::assume(pos < u64::MAX - 3);
+        let mut out = Vec::with_capacity(64);
+        MultiRecord::serialize([&data[0][..lens[0]], &data[1][..lens[1]]].iter().copied(), pos, &mut out);
+        check(&out, 2, pos, &data, &lens);
     }
 }
